@@ -76,6 +76,12 @@ def _const_ops(shapes):
             out.append(['bin', name, side, {'c': [], 'dt': 'py'}])
             out.append(['bin', name, side, {'c': [2, 2], 'dt': 'i'}])
             out.append(['bin', name, side, {'c': [3], 'dt': 'i'}])
+    # batch matrix products where a size-1 batch axis of the constant sits between other batch axes
+    for s4 in ([2, 1, 2, 3], [2, 1, 2, 2], [1, 2, 2, 3], [2, 1, 3, 2], [2, 1, 1, 2]):
+        out.append(['bin', 'matmul', 'l', {'c': s4}])
+        out.append(['bin', 'matmul', 'r', {'c': s4}])
+        out.append(['bin', 'mul', 'l', {'c': s4}])
+        out.append(['bin', 'add', 'r', {'c': s4}])
     # sparse constants: matrix product on both sides, addition, element-wise with the expression first
     for s in ([2, 2], [2, 3], [3, 2], [1, 2]):
         out.append(['bin', 'matmul', 'l', {'c': s, 'dt': 'sp'}])
@@ -155,6 +161,28 @@ def gen_cases(tier, seed):
                         continue
                     for op2 in second:
                         yield {'fe': fe, 'L': [leaf], 'ops': [op1, op2]}
+    # history: an intermediate object is first used in an ordinary way (indexed / summed / transposed, result
+    # discarded - this fills the lazily built index caches) and the chain then continues from the same object
+    pres = [['idx', '0'], ['sum', 0]] + ([['idx', '(Ellipsis,-1)'], ['T'], ['sum', None]] if thorough else [])
+    last = [op for op in unary if op[0] in ('idx', 'sum')] if thorough else \
+        [['idx', i] for i in ('0', '-1', '1:', '::-1', '[1,0]', '(0,0)', '(1,-1)', '(slice(None),0)', '(Ellipsis,0)',
+                              '([0,1],[1,0])', '(slice(1,None),slice(None,1))', 'np.array([True,True])')] + \
+        [['sum', a] for a in (None, 0, 1, -1)]
+    for fe, kinds in fes:
+        for k in kinds:
+            for s in (shapes2 if not thorough else shapes):
+                if len(s) == 0:
+                    continue
+                leaf = {'k': k, 's': list(s)}
+                for pre in pres:
+                    for op2 in last:
+                        yield {'fe': fe, 'L': [leaf], 'ops': [op2], 'pre': [0, pre]}
+                    for op1 in SECOND_Q:
+                        if _np_shape(s, [op1]) is None:
+                            continue
+                        for op2 in last:
+                            for pos in (0, 1) if (thorough or pre is pres[0]) else (0,):
+                                yield {'fe': fe, 'L': [leaf], 'ops': [op1, op2], 'pre': [pos, pre]}
     if thorough:
         # depth 3 on a reduced alphabet
         third = SECOND_Q
@@ -189,7 +217,8 @@ def bounds(tier):
     th = tier == 'thorough'
     return {'depth': 3 if th else 2, 'shapes': len(SHAPES_T if th else SHAPES), 'index_exprs': len(INDEXES),
             'leaf_classes': len(RO_KINDS) + len(DRO_KINDS),
-            'depth2_second_level_alphabet': 'full' if th else len(SECOND_Q)}
+            'depth2_second_level_alphabet': 'full' if th else len(SECOND_Q),
+            'history': 'one discarded earlier use (index / sum) of the leaf or of the intermediate object'}
 
 
 # ------------------------------------------------------------------------------------------------
@@ -479,13 +508,21 @@ def run_case(case):
     nops = len(ops) + len(case['L'])
     tag = '%s|%s|%s' % (fe, '+'.join('%s%s' % (l['k'], tuple(l['s'])) for l in case['L']),
                         '>'.join(_opname(o) for o in ops))
+    if case.get('pre'):
+        tag += '|after %s at %d' % (_opname(case['pre'][1]), case['pre'][0])
     env = Env(fe, case['L'])
     # ---- RSOME side
     rs_err = None
     watched = [(('leaf%d' % i), l, snapshot(l)) for i, l in enumerate(env.leaves)]
     try:
         e = env.leaves[0]
+        pre = case.get('pre')
         for k, op in enumerate(ops):
+            if pre and pre[0] == k:
+                try:
+                    apply_op(pre[1], e, env, None, True)      # ordinary earlier use; the result is discarded
+                except Exception:  # noqa
+                    pass
             e = apply_op(op, e, env, None, True)
             if k + 1 < len(ops):
                 watched.append(('step%d' % (k + 1), e, snapshot(e)))
